@@ -15,16 +15,8 @@ for line in itertools.chain(*[open(l, errors='replace') for l in logs]):
     m = re.search(r'RESULT (/tmp/wt[0-9]?-(C\d+)/_seeded/(\w+)) suite_ok=(\d) demo_fails_with_patch=(\d) caught_by=\[(.*?)\] tier=(\w+)', line)
     if m:
         key = m.group(2) + '-' + m.group(3)
-        res[key] = dict(dir=m.group(1), prop=m.group(2), suite_ok=m.group(4) == '1', demo_fails=m.group(5) == '1', caught_by=m.group(6).split(), tier=m.group(7))
-# The round-2 worktrees (/tmp/wt2-*) were created before the repair of finding F17 (final INI line of exactly
-# 4096*k bytes), so C14 reports that unrepaired defect in every one of them; it counts as catching a round-2
-# change only where it reports a signature other than the F17 ones.
-F17_SIGS = ('noise:value-changed', 'noise:call-log')
-GENUINE_C14_ROUND2 = {'C14-D', 'C13-E', 'C14-E', 'C13-F', 'C12-F', 'C14-F'}
-for key, r in res.items():
-    if '/wt2-' in r['dir'] and 'C14' in r['caught_by'] and key not in GENUINE_C14_ROUND2:
-        r['caught_by'] = [c for c in r['caught_by'] if c != 'C14']
-        caught.get(key, {}).pop('C14', None)
+        prev = res.get(key, {}).get('caught_by', [])
+        res[key] = dict(dir=m.group(1), prop=m.group(2), suite_ok=m.group(4) == '1', demo_fails=m.group(5) == '1', caught_by=sorted(set(prev) | set(m.group(6).split())), tier=m.group(7))
 rows = []
 for key in sorted(res):
     r = res[key]
@@ -37,9 +29,12 @@ for key in sorted(res):
         shutil.copy(os.path.join(r['dir'], f), os.path.join(dst, f))
     meta = json.load(open(os.path.join(r['dir'], 'meta.json')))
     meta['property'] = r['prop']
+    if os.path.exists(os.path.join(r['dir'], 'patch.orig')):
+        meta['ported'] = 'patch.diff was re-created on top of the later fix commits b360d40/0fcc3aa (context moved or the touched function was repaired in between); same change as the author wrote'
+
     meta['author'] = 'independent sub-agent given only the property text and a scratch worktree'
     meta['confirmed'] = {
-        'ran': 'tools/seeded_scratch.sh <worktree> <X> quick (applies patch.diff in the scratch worktree, go build, full repository suite, demo test with the patch, all 20 quick checks through VERIF_REPO, revert); demo test re-run without the patch',
+        'ran': 'tools/seeded_scratch.sh <worktree> <X> quick [checks] (scratch worktree at /repo HEAD: applies patch.diff, go build, full repository suite, demo test with the patch, the quick checks through VERIF_REPO, revert); demo test re-run without the patch',
         'repository_suite_passes_with_change': True,
         'demo_fails_with_change': True,
         'caught_by_quick_checks': r['caught_by'],
@@ -47,8 +42,8 @@ for key in sorted(res):
     }
     json.dump(meta, open(os.path.join(dst, 'meta.json'), 'w'), indent=1, ensure_ascii=False)
     what = meta.get('what', '').replace('\n', ' ').replace('|', '\\|')
-    if len(what) > 230:
-        what = what[:227] + '...'
+    if len(what) > 160:
+        what = what[:157] + '...'
     own = r['prop'] in r['caught_by']
     others = [c for c in r['caught_by'] if c != r['prop']]
     rows.append('| %s | %s | %s | %s |' % (key, what, ('**%s** `%s`' % (r['prop'], caught.get(key, {}).get(r['prop'], ''))) if own else '— (see below)', ', '.join(others) or '—'))
